@@ -19,7 +19,7 @@ from prosemirror.transform.doc_attr_step import DocAttrStep
 
 from .. import core, gen, ops, schemas
 from ..core import outcome
-from . import c04_guard, c04_marks
+from . import c04_guard, c04_marks, c04_ops
 
 SINGLE_UNDO = (ReplaceStep, ReplaceAroundStep, AttrStep, DocAttrStep, AddNodeMarkStep, RemoveNodeMarkStep)
 
@@ -33,18 +33,31 @@ def declared(step, doc):
     return True
 
 
-def undo_single(ctx, info, doc, step, res_doc, reqs, metas, origin, expect_known=False):
+def undo_single(ctx, info, doc, step, res_doc, reqs, metas, origin, expect_known=False, oracle=True):
+    """`oracle=False`: an attribute step naming an attribute the node does not declare — outside the property's
+    quantifier, so no violation is raised, but the model's `invert` is tied to the real one all the same"""
     replay = {"schema": info.name, "doc": doc.to_json(), "step": step.to_json(), "origin": origin}
     ctx.case(["undo", info.name, doc.to_json(), step.to_json()],
              sample={"op": "invert+apply", "schema": info.name, "step": step.to_json(), "origin": origin})
     ctx.count("undo:" + type(step).__name__)
     sti, inv = outcome(lambda: step.invert(doc))
     if sti != "ok":
-        ctx.violation("invert-raises", f"Step.invert raised {inv} on a step that applied", replay)
+        if oracle:
+            ctx.violation("invert-raises", f"Step.invert raised {inv} on a step that applied", replay)
+        else:
+            # the model must not build an inverse either
+            ctx.count("undeclared-attr:invert-raises")
+            reqs.append({"op": "invert", "s": info.lean_id, "doc": info.node(doc), "step": info.step(step)})
+            metas.append(("invert-raises", replay, None))
         return
     stb, back = outcome(lambda: inv.apply(res_doc))
     ok = stb == "ok" and back.doc is not None and back.doc.eq(doc)
     detail = None
+    if not oracle:
+        ctx.count("undeclared-attr:" + ("restored" if ok else "not-restored"))
+        reqs.append({"op": "invert", "s": info.lean_id, "doc": info.node(doc), "step": info.step(step)})
+        metas.append(("invert", replay, (info, doc, res_doc, ok)))
+        return
     if not ok:
         detail = back.failed if stb == "ok" else str(back)
         r = dict(replay, inverse=inv.to_json(), outcome=stb, detail=str(detail)[:200], after=res_doc.to_json(),
@@ -111,6 +124,13 @@ def run(ctx):
             if op == "markUndoGuards":
                 c04_marks.compare(ctx, replay, payload, out)
                 continue
+            if op == "familyGuard":
+                c04_ops.compare(ctx, replay, payload, out)
+                continue
+            if op == "invert-raises":
+                if "ok" in out:
+                    ctx.mismatch("invert", replay, "impl invert raises", out)
+                continue
             info, doc, res_doc, impl_ok = payload
             if "ok" not in out:
                 if impl_ok:
@@ -129,11 +149,11 @@ def run(ctx):
     fam = schemas.family()
     n_s = ctx.budget(30, 80)
 
-    def history(info, d, docs, kinds, nops):
+    def history(info, d, docs, kinds, nops, forced=None):
         tr = Transform(d)
         log = []
-        for _ in range(nops):
-            name, args, thunk = ops.plan_op(rng, info, tr.doc, docs, kinds)
+        for i in range(len(forced) if forced is not None else nops):
+            name, args, thunk = forced[i] if forced is not None else ops.plan_op(rng, info, tr.doc, docs, kinds)
             snap = (len(tr.steps), len(tr.docs), len(tr.mapping.maps), tr.doc)
             st, val, added = ops.run_op(tr, thunk)
             log.append(ops.describe(name, args) | {"outcome": st, "steps_added": added})
@@ -210,8 +230,15 @@ def run(ctx):
         owner = [l["op"] for l in log for _ in range(l["steps_added"])]
         for k, s in enumerate(tr.steps):
             nxt = tr.docs[k + 1] if k + 1 < len(tr.docs) else tr.doc
-            if isinstance(s, SINGLE_UNDO) and declared(s, tr.docs[k]):
-                undo_single(ctx, info, tr.docs[k], s, nxt, reqs, metas, "history")
+            if k < len(owner) and owner[k] in c04_ops.STRUCT and isinstance(s, (ReplaceStep, ReplaceAroundStep)):
+                # the guard of the undo theorem on the steps the structural operations record (c04_ops.py)
+                sti, inv = outcome(lambda: s.invert(tr.docs[k]))
+                stb, back = outcome(lambda: inv.apply(nxt)) if sti == "ok" else ("internal", None)
+                c04_ops.request(ctx, info, tr.docs[k], s, nxt, owner[k],
+                                stb == "ok" and back.doc is not None and back.doc.eq(tr.docs[k]), reqs, metas,
+                                {"schema": info.name})
+            if isinstance(s, SINGLE_UNDO):
+                undo_single(ctx, info, tr.docs[k], s, nxt, reqs, metas, "history", oracle=declared(s, tr.docs[k]))
             elif isinstance(s, c04_marks.MARK_STEPS):
                 # range mark steps: the guard of their naive inverse (exact tie) and the planner theorems
                 c04_marks.single(ctx, info, tr.docs[k], s, nxt, reqs, metas, "history",
@@ -260,11 +287,11 @@ def run(ctx):
                     if st == "ok" and res.doc is not None:
                         c04_marks.single(ctx, info, d, step, res.doc, reqs, metas, "primitive")
                     continue
-                if not isinstance(step, SINGLE_UNDO) or not declared(step, d):
+                if not isinstance(step, SINGLE_UNDO):
                     continue
                 st, res = outcome(lambda: step.apply(d))
                 if st == "ok" and res.doc is not None:
-                    undo_single(ctx, info, d, step, res.doc, reqs, metas, "primitive")
+                    undo_single(ctx, info, d, step, res.doc, reqs, metas, "primitive", oracle=declared(step, d))
             if info.name == "bridge":
                 for step in bridge_steps(d):
                     st, res = outcome(lambda: step.apply(d))
@@ -302,6 +329,20 @@ def run(ctx):
                                 ctx.violation("history-undo", "applying the inverted steps in reverse order does not restore the starting document",
                                               {"schema": info.name, "doc": dd[1].to_json(), "ops": ["aimed same-type marks"], "steps": [x.to_json() for x in trm.steps],
                                                "culprit": k, "step": s_.to_json(), "culprit_doc": trm.docs[k].to_json(), "detail": "order of same-type marks"})
+            # aimed: `wrap` called directly with a *leaf* wrapper type (find_wrapping never proposes one).  Where the parent
+            # takes the leaf before the range the operation goes through — it inserts the leaf, structure flag set — and
+            # its inverse refuses to delete the leaf again: an instance of finding C04-structure-inverse emitted by a
+            # library operation (theorem `wrapGuard_family` carries the hypothesis "no wrapper of a leaf type")
+            leafs = [t for t in schema.nodes.values() if t.is_leaf and not t.is_text and not t.is_inline]
+            if leafs and rng.random() < 0.5:
+                brs = ops.block_ranges(d)
+                if brs:
+                    br, lt = rng.choice(brs), rng.choice(leafs)
+                    wr = [ops.NodeTypeWithAttrs(lt, gen.gen_attrs(rng, lt))]
+                    ctx.count("aimed-leaf-wrap")
+                    history(info, d, docs, None, 1, forced=[("wrap", [br.start, br.end, br.depth, wr], lambda tr: tr.wrap(br, wr))])
+            # structural-only histories (split / join / lift / wrap / retyping): the steps `opHistory_undo` discharges
+            history(info, d, docs, ops.STRUCT_OPS + ["set_node_markup", "set_block_type"], rng.randint(1, 4))
             # mark-only histories (wide ranges over mixed marked / unmarked inline content)
             if schema.marks:
                 for _ in range(2):
